@@ -18,6 +18,7 @@ import (
 	"regexp"
 	"runtime"
 	"runtime/debug"
+	"sort"
 	"strconv"
 	"strings"
 	"sync"
@@ -138,6 +139,8 @@ func (r c28Result) line() string {
 	switch r.kind {
 	case "panic":
 		return "panic " + hx(r.msg) + " " + hx(r.frames)
+	case "invariant":
+		return "invariant " + hx(r.msg)
 	case "ok":
 		return "ok " + strconv.Itoa(r.status)
 	}
@@ -205,7 +208,38 @@ func c28WorkerProg(base string, n int, timeout time.Duration, f []string) (res c
 			res.status = 1
 		}
 	}
+	if bad := c28ProbeVars(r); bad != "" {
+		return c28Result{kind: "invariant", msg: bad, ran: true}
+	}
 	return res
+}
+
+// c28ProbeVars checks, on the variables Run leaves in r.Vars, the representation invariant that
+// every keyed array access relies on (Variable.indexedVal / indexedKeys index List by positions found
+// in Indexes): Indexes is nil, or has one strictly increasing non-negative entry per List element.
+// A violation is a latent index-out-of-range panic even if this program did not touch the variable
+// again.
+func c28ProbeVars(r *interp.Runner) string {
+	names := make([]string, 0, len(r.Vars))
+	for n := range r.Vars {
+		names = append(names, n)
+	}
+	sort.Strings(names)
+	for _, n := range names {
+		v := r.Vars[n]
+		if v.Kind != expand.Indexed || v.Indexes == nil {
+			continue
+		}
+		if len(v.Indexes) != len(v.List) {
+			return fmt.Sprintf("variable %s: len(List)=%d but len(Indexes)=%d (%v)", n, len(v.List), len(v.Indexes), v.Indexes)
+		}
+		for i, k := range v.Indexes {
+			if k < 0 || (i > 0 && k <= v.Indexes[i-1]) {
+				return fmt.Sprintf("variable %s: Indexes not strictly increasing and non-negative: %v", n, v.Indexes)
+			}
+		}
+	}
+	return ""
 }
 
 // c28WorkerOpts: tokens P:<hex,hex…>  D:<hex>  E:nil|func|list:<hex,…>  S:<in><out><err>  I:0|1
@@ -524,6 +558,8 @@ func (w *c28Worker) do(req string) c28Result {
 			return c28Result{kind: "ok", status: st, ran: true}
 		case "panic":
 			return c28Result{kind: "panic", msg: unhx(f[1]), frames: unhx(f[2]), ran: true}
+		case "invariant":
+			return c28Result{kind: "invariant", msg: unhx(f[1]), ran: true}
 		case "timeout":
 			return c28Result{kind: "timeout", ran: true}
 		case "hang":
